@@ -22,6 +22,7 @@ mod plan;
 mod pool;
 mod proc;
 mod readline;
+mod render;
 mod resolve;
 mod run;
 mod strs;
@@ -38,6 +39,7 @@ fn main() {
         Some("bump") => bump::main(rest),
         Some("strs") => strs::main(rest),
         Some("readline") => readline::main(rest),
+        Some("render") => render::main(rest),
         Some("proc") => proc::main(rest),
         Some("limits") => limits::main(rest),
         Some("capture") => capture::main(rest),
